@@ -72,12 +72,16 @@ func (srv *Server) Characteristics(w http.ResponseWriter, r *http.Request) {
 				aid := to.Uint64(ids[0]) // accessory id
 				iid := to.Uint64(ids[1]) // instance id (= characteristic id)
 				resp := CharacteristicResponse{AccessoryID: aid, CharacteristicID: iid}
-				if ch := srv.getCharacteristic(aid, iid); ch != nil {
-					resp.Value = ch.GetValueFromConnection(conn)
-				} else {
+				if ch := srv.getCharacteristic(aid, iid); ch == nil {
 					err = true
 					status := hap.StatusServiceCommunicationFailure
 					resp.Status = &status
+				} else if !ch.IsReadable() {
+					err = true
+					status := hap.StatusWriteOnlyCharacteristic
+					resp.Status = &status
+				} else {
+					resp.Value = ch.GetValueFromConnection(conn)
 				}
 				arr = append(arr, resp)
 			} else {
@@ -89,10 +93,10 @@ func (srv *Server) Characteristics(w http.ResponseWriter, r *http.Request) {
 		if err == true {
 			// Set 207 status when any of the response includes an error
 			w.WriteHeader(http.StatusMultiStatus)
-			for _, resp := range arr {
-				if resp.Status == nil {
+			for i := range arr {
+				if arr[i].Status == nil {
 					ok := 0
-					resp.Status = &ok // make sure that every response contains a status code (0 means OK)
+					arr[i].Status = &ok // make sure that every response contains a status code (0 means OK)
 				}
 			}
 		} else {
